@@ -56,6 +56,10 @@ PRED_SIG = {
 
 # predicates whose applicability guards vacuity, per property
 MAIN_PREDS = {
+    # the point-in-time halves of C01 / C03 / C04 (run_reads_stage: called by checks/C01.py, C03.py, C04.py)
+    "C01": ["Inv_C01_ConservationAt"],
+    "C03": ["Inv_C03_MovesAt"],
+    "C04": ["Inv_C04_EffectiveAt"],
     "C05": ["Inv_C05_VolumesAt", "Inv_C05_AggAt", "Inv_C05_AccountsAt", "Inv_C05_TxsAt", "Inv_C05_Status"],
     "C17": ["Step_C17_TxMetaAt", "Step_C17_AcctMetaAt"],
     "C20": ["Step_C20_Select", "Step_C20_Count", "Step_C20_Status"],
@@ -520,7 +524,38 @@ def m_c37(rd):
     return True
 
 
+def m_c01(rd):
+    q, out = rd["q"], rd["out"]
+    if q["res"] != "agg" or out["status"] != "ok" or not out["pages"] or not out["pages"][0]["items"]:
+        return False
+    out["pages"][0]["items"][0]["b"] += 1   # an unfiltered aggregated balance that is not zero
+    return True
+
+
+def _m_acct_vol(field):
+    def mut(rd):
+        q, out = rd["q"], rd["out"]
+        if q["res"] != "accounts" or out["status"] != "ok" or q["pit"] == 0:
+            return False
+        target = None
+        for it in out["full"]:
+            if it[field]:
+                target = it["addr"]
+                break
+        if target is None:
+            return False
+        for ls in _items_everywhere(out):
+            for it in ls:
+                if it["addr"] == target and it[field]:
+                    it[field][0]["i"] += 1
+        return True
+    return mut
+
+
 CONTROLS = {
+    "C01": (("Inv_C01_ConservationAt",), "Inv_C01_ConservationAt", m_c01),
+    "C03": (("Inv_C03_MovesAt",), "Inv_C03_MovesAt", _m_acct_vol("vol")),
+    "C04": (("Inv_C04_EffectiveAt",), "Inv_C04_EffectiveAt", _m_acct_vol("evol")),
     # property -> (predicates one of which must reject, predicate that must have applied to the chosen read, mutator)
     "C05": (("Inv_C05_VolumesAt",), "Inv_C05_VolumesAt", m_c05),
     "C17": (("Step_C17_TxMetaAt", "Step_C17_AcctMetaAt"), None, m_c17),
@@ -580,4 +615,53 @@ def run_reads_check(c, prop):
     d = build_pipeline(c.tier, c.seed)
     evaluate(c, prop, d)
     c.set("negative_control", negative_control(d, c.seed, prop))
+    return d
+
+
+def run_reads_stage(c, prop):
+    """Point-in-time half of C01 / C03 / C04, decided on the reads the shared reads pipeline already issues (same cache):
+    Inv_C01_ConservationAt / Inv_C03_MovesAt / Inv_C04_EffectiveAt of spec/TraceReads.tla.  Adds coverage counters prefixed
+    reads_, reports a failing predicate as a violation whose signature is the predicate name, and ends with one
+    corrupted-field control for that predicate.  To be called by checks/C01.py, C03.py, C04.py after their own pipeline."""
+    d = build_pipeline(c.tier, c.seed)
+    res = load_result(d)
+    cases = {x["case"]: x for x in json.load(open(os.path.join(d, "cases.json")))}
+    for t in res["trace_tlc"]:
+        c.add("states", t["distinct"])
+        c.add("transitions", t["generated"])
+    c.cov.setdefault("tlc_runs", []).append(dict(label="TraceReads report spec over %d chunks (reads as of an instant)" % len(res["trace_tlc"]),
+                                                 distinct=sum(t["distinct"] for t in res["trace_tlc"]),
+                                                 generated=sum(t["generated"] for t in res["trace_tlc"]),
+                                                 wall_s=max(t["wall_s"] for t in res["trace_tlc"])))
+    n_hist = sum(b["cases"] for b in res["batches"])
+    c.set("reads_histories", n_hist)
+    c.set("traces_validated_against_impl", int(c.cov.get("traces_validated_against_impl", 0)) + n_hist)
+    c.set("reads_validated", sum(b["reads"] for b in res["batches"]))
+    c.set("reads_withPit", sum(b.get("withPit", 0) for b in res["batches"]))
+    applied = {p: len(v) for p, v in res["apps"].items() if prop_of(p) == prop}
+    c.set("reads_predicate_applications", applied)
+    for p in MAIN_PREDS[prop]:
+        if applied.get(p, 0) == 0:
+            raise vlib.Inconclusive("vacuous run: predicate %s never applied to a read" % p)
+    counts, first = {}, {}
+    for pred, ln, case in res["fails"]:
+        if pred in MAIN_PREDS[prop]:
+            counts[pred] = counts.get(pred, 0) + 1
+            first.setdefault(pred, (ln, case))
+    if counts:
+        c.set("reads_failing_predicates", counts)
+    for pred, (ln, case) in sorted(first.items()):
+        if not res["replayed"].get(pred, False):
+            raise vlib.Inconclusive("predicate %s failed on case %s but the failure did not reproduce on replay" % (pred, case))
+        rd = json.loads(dict(case_lines(d, case))[ln])
+        cs = cases.get(case, {})
+        text = ("predicate %s of spec/TraceReads.tla fails %d time(s); first: read %s of case %s (seed %s, scale %s, features %s): "
+                "q=%s out=%s" % (pred, counts[pred], ln, case, cs.get("seed"), cs.get("scale"),
+                                 json.dumps(cs.get("features"), sort_keys=True), compact_q(rd["q"]), compact_out(rd["out"])))
+        c.violation(pred, text, dict(kind="reads", predicate=pred, case=cs, read=rd,
+                                     how="harness/cmd/vh-reads replay -case <this.replay.case> ; TLC spec/TraceReads.tla TraceReadsReport.cfg"))
+    c.set("reads_negative_control", negative_control(d, c.seed, prop))
+    c.assume("reads as of an instant are issued at two points of each history (mid-history, end), at instants before / between / on / "
+             "after the recorded dates; every third history contains a back-dated transaction touching one (account, asset) in three "
+             "postings between two later-dated ones")
     return d
